@@ -259,7 +259,7 @@ Proof.
      (length a =? length b)%nat && forallb (fun p => Bool.eqb (fst p) (snd p)) (combine a b))
      (zseq 0 2048) = true) by (vm_compute; reflexivity).
   intros v Hv. pose proof (forallb_zseq _ _ _ H v ltac:(simpl; lia)) as H1. cbv beta zeta in H1.
-  apply andb_true_iff in H1. destruct H1 as [Hl Hc].
+  apply andb_true_iff in H1. destruct H1 as [Hl Hc]. clear H.
   apply Nat.eqb_eq in Hl.
   revert Hl Hc. generalize (msb_bits 16 v) (msb_bits 5 0 ++ msb_bits 11 v).
   induction l as [|x l IH]; intros [|y l'] Hl Hc; simpl in *; try discriminate; auto.
@@ -292,6 +292,18 @@ Proof.
     pose proof (Zle_0_nat (length t)). unfold zlength in *. lia. }
   rewrite E1. cbn [orb app]. rewrite IH; [reflexivity | lia | lia].
 Qed.
+
+Lemma sp_run_step f m X : X <> [] ->
+  sp_run (S f) m X =
+  match sp_step m X with
+  | SEmit out m' rest =>
+    match sp_run f m' rest with Some (o, mf) => Some (out ++ o, mf) | None => None end
+  | _ => None
+  end.
+Proof. destruct X; [congruence | reflexivity]. Qed.
+
+Lemma hdr_nonempty R : msb_bits 5 31 ++ R <> [].
+Proof. cbn [msb_bits app]. discriminate. Qed.
 
 Section BinShift.
 Variable m : smode.
@@ -338,7 +350,7 @@ Proof.
     change (msb_bits 8 b ++ bytes_bits t) with (bytes_bits (b :: t)).
     rewrite <- app_assoc.
     pose proof (step_binshift_short (b :: t) [] HF ltac:(lia)) as Hs. rewrite app_nil_r in Hs.
-    cbn [sp_run]. destruct (msb_bits 5 31 ++ _) eqn:Ebits; [discriminate|]. rewrite <- Ebits.
+    rewrite sp_run_step by apply hdr_nonempty.
     rewrite Hs. cbn [sp_run]. rewrite app_nil_r. reflexivity.
   - destruct (Z_le_gt_dec (zlength bs) 62) as [H62|H62].
     + (* two headers: 31 bytes, then the rest *)
@@ -369,10 +381,9 @@ Proof.
                     HF1 ltac:(lia)) as Hs1.
       pose proof (step_binshift_short p2 [] HF2 ltac:(lia)) as Hs2. rewrite app_nil_r in Hs2.
       rewrite <- !app_assoc.
-      cbn [sp_run]. destruct (msb_bits 5 31 ++ msb_bits 5 (zlength p1) ++ _) eqn:Ebits; [discriminate|].
-      rewrite <- Ebits. rewrite Hs1.
-      cbn [sp_run]. destruct (msb_bits 5 31 ++ msb_bits 5 (zlength p2) ++ _) eqn:Ebits2; [discriminate|].
-      rewrite <- Ebits2. rewrite Hs2. cbn [sp_run]. rewrite app_nil_r, <- Hsplit. reflexivity.
+      rewrite sp_run_step by apply hdr_nonempty. rewrite Hs1.
+      rewrite sp_run_step by apply hdr_nonempty. rewrite Hs2.
+      cbn [sp_run]. rewrite app_nil_r, <- Hsplit. reflexivity.
     + (* one header, 16-bit length *)
       destruct bs as [|b t]; [unfold zlength in Hl; simpl in Hl; lia|].
       assert (Hz : zlength (b :: t) = zlength t + 1) by (unfold zlength; cbn [length]; lia).
@@ -382,8 +393,510 @@ Proof.
       change (msb_bits 8 b ++ bytes_bits t) with (bytes_bits (b :: t)).
       rewrite <- app_assoc.
       pose proof (step_binshift_long (b :: t) [] HF ltac:(lia)) as Hs. rewrite app_nil_r in Hs.
-      cbn [sp_run]. destruct (msb_bits 5 31 ++ _) eqn:Ebits; [discriminate|]. rewrite <- Ebits.
+      rewrite sp_run_step by apply hdr_nonempty.
       rewrite Hs. cbn [sp_run]. rewrite app_nil_r. reflexivity.
 Qed.
 
 End BinShift.
+
+(* ================================================================== *)
+(* D. token lists                                                      *)
+Lemma tokens_bits_acc text : forall toks acc,
+  az_tokens_bits text toks acc = (do B <- az_tokens_bits text toks []; Ok (B ++ acc)).
+Proof.
+  induction toks as [|t toks IH]; intros acc; cbn [az_tokens_bits].
+  - reflexivity.
+  - destruct (az_token_bits text t) as [b| | |]; cbn [obind]; auto.
+    rewrite IH. rewrite (IH (b ++ [])).
+    destruct (az_tokens_bits text toks []); cbn [obind]; auto.
+    rewrite app_nil_r, app_assoc. reflexivity.
+Qed.
+
+Lemma tokens_bits_cons text t toks B b :
+  az_tokens_bits text toks [] = Ok B -> az_token_bits text t = Ok b ->
+  az_tokens_bits text (t :: toks) [] = Ok (B ++ b).
+Proof.
+  intros HB Hb. cbn [az_tokens_bits]. rewrite Hb. cbn [obind].
+  rewrite tokens_bits_acc, HB. cbn [obind]. rewrite app_nil_r. reflexivity.
+Qed.
+
+Lemma zlength_app {A} (a b : list A) : zlength (a ++ b) = zlength a + zlength b.
+Proof. unfold zlength. rewrite app_length. lia. Qed.
+
+Lemma zlength_nil_inv {A} (l : list A) : zlength l = 0 -> l = [].
+Proof. destruct l; unfold zlength; simpl; [auto | lia]. Qed.
+
+Lemma zlength_nonneg {A} (l : list A) : 0 <= zlength l.
+Proof. unfold zlength. lia. Qed.
+
+(* ================================================================== *)
+(* E. the invariant of the state-list search                           *)
+Section HL.
+Variable text : list Z.
+Hypothesis Htext : Forall is_byte text.
+
+Definition dec_ok (B : list bool) (pre : list Z) (m : Z) : Prop :=
+  forall C, sp_dec_from SUpper (B ++ C) = lift pre (sp_dec_from (mode_of m) C).
+
+Lemma dec_ok_ext B pre m X out m' f :
+  dec_ok B pre m -> sp_run f (mode_of m) X = Some (out, mode_of m') ->
+  dec_ok (B ++ X) (pre ++ out) m'.
+Proof.
+  intros HB HX C. rewrite <- app_assoc. rewrite HB.
+  rewrite (sp_run_compose _ _ _ _ _ HX C). apply lift_lift.
+Qed.
+
+Record InvB (bound : Z) (pre : list Z) (s : state) : Prop := mkInv {
+  inv_mode : 0 <= st_mode s <= 4;
+  inv_bs_range : 0 <= st_bshift s <= bound;
+  inv_bs_mode : 0 < st_bshift s -> st_mode s = 0 \/ st_mode s = 1 \/ st_mode s = 3;
+  inv_bits : 0 <= st_bits s <= 32 * zlength pre;
+  inv_sem : exists pre1 pend B,
+      pre = pre1 ++ pend /\ zlength pend = st_bshift s /\
+      az_tokens_bits text (st_tokens s) [] = Ok B /\ dec_ok B pre1 (st_mode s)
+}.
+
+Lemma inv_weaken b b' pre s : b <= b' -> InvB b pre s -> InvB b' pre s.
+Proof. intros Hb [H1 H2 H3 H4 H5]. constructor; auto. lia. Qed.
+
+Lemma inv_initial : InvB 0 [] az_initial_state.
+Proof.
+  constructor; unfold az_initial_state; cbn [st_mode st_bshift st_bits st_tokens]; unfold M_UPPER.
+  - lia.
+  - lia.
+  - lia.
+  - change (zlength (@nil Z)) with 0. lia.
+  - exists (@nil Z), (@nil Z), (@nil bool). repeat split; auto.
+    intros C. cbn [app st_mode az_initial_state]. rewrite lift_nil. reflexivity.
+Qed.
+
+(* endBinaryShift *)
+Lemma inv_flush pre rest s : text = pre ++ rest -> InvB 2078 pre s ->
+  InvB 0 pre (az_end_binary_shift s (zlength pre))
+  /\ st_mode (az_end_binary_shift s (zlength pre)) = st_mode s
+  /\ st_bshift (az_end_binary_shift s (zlength pre)) = 0.
+Proof.
+  intros Ht [H1 H2 H3 H4 (pre1 & pend & B & Hp & Hl & HB & Hd)].
+  unfold az_end_binary_shift. destruct (st_bshift s =? 0) eqn:E.
+  - split; [|split; [reflexivity | lia]].
+    constructor; auto; try lia. exists pre1, pend, B. auto.
+  - cbn [st_mode st_bshift]. split; [|split; reflexivity].
+    assert (Hc : 0 < st_bshift s) by lia.
+    assert (Hbytes : Forall is_byte pend).
+    { rewrite Ht, Hp in Htext. apply Forall_app in Htext. destruct Htext as [Ha _].
+      apply Forall_app in Ha. tauto. }
+    assert (Htok : az_token_bits text (TShift (zlength pre - st_bshift s) (st_bshift s))
+                   = Ok (az_bshift_loop pend 0 (zlength pend))).
+    { cbn [az_token_bits]. unfold az_bshift_bits.
+      destruct (st_bshift s <=? 0) eqn:E1; [lia|].
+      assert (Hstart : zlength pre - st_bshift s = zlength pre1) by (rewrite Hp, zlength_app; lia).
+      rewrite Hstart.
+      assert (Hlen : zlength text = zlength pre1 + zlength pend + zlength rest)
+        by (rewrite Ht, Hp, !zlength_app; lia).
+      pose proof (zlength_nonneg pre1). pose proof (zlength_nonneg rest).
+      destruct (zlength pre1 <? 0) eqn:E2; [lia|].
+      destruct (zlength text <? zlength pre1 + st_bshift s) eqn:E3; [lia|]. cbn [orb].
+      rewrite Ht, Hp, <- app_assoc. unfold zlength at 1. rewrite Nat2Z.id.
+      rewrite skipn_app, skipn_all, Nat.sub_diag. cbn [skipn app].
+      rewrite <- Hl. unfold zlength at 1. rewrite Nat2Z.id.
+      rewrite firstn_app, firstn_all, Nat.sub_diag. cbn [firstn]. rewrite app_nil_r.
+      rewrite Hl. reflexivity. }
+    destruct (ff_bs_code (st_mode s) (H3 Hc)) as [Hw Hcd].
+    pose proof (run_bshift (mode_of (st_mode s)) Hw Hcd pend Hbytes ltac:(lia)) as Hrun.
+    constructor; cbn [st_mode st_bshift st_bits st_tokens]; auto; try lia.
+    exists pre, [], (B ++ az_bshift_loop pend 0 (zlength pend)).
+    split; [rewrite app_nil_r; reflexivity|]. split; [reflexivity|].
+    split; [apply tokens_bits_cons; auto|].
+    rewrite Hp. eapply dec_ok_ext; eauto.
+Qed.
+
+(* a state without pending binary bytes *)
+Lemma inv0_sem pre s : InvB 0 pre s ->
+  exists B, az_tokens_bits text (st_tokens s) [] = Ok B /\ dec_ok B pre (st_mode s).
+Proof.
+  intros [H1 H2 H3 H4 (pre1 & pend & B & Hp & Hl & HB & Hd)].
+  assert (pend = []) by (apply zlength_nil_inv; lia). subst pend. rewrite app_nil_r in Hp. subst pre1.
+  eauto.
+Qed.
+
+(* latchAndAppend *)
+Lemma inv_latch pre out s m' v f : InvB 0 pre s -> 0 <= m' <= 4 -> 1 <= zlength out ->
+  sp_run f (mode_of (st_mode s)) (az_latch_bits (st_mode s) m' ++ code_bits m' v)
+    = Some (out, mode_of m') ->
+  InvB 0 (pre ++ out) (az_latch_and_append s m' v).
+Proof.
+  intros HI Hm Ho Hrun. destruct (inv0_sem _ _ HI) as (B & HB & Hd).
+  destruct HI as [H1 H2 H3 H4 _].
+  pose proof (az_latch_table_iso (st_mode s) m' H1 Hm) as Hle. unfold latch_entry_ok in Hle.
+  repeat (apply andb_true_iff in Hle; let H := fresh "Hle" in destruct Hle as [Hle H]).
+  assert (Hbc : 4 <= az_bitcount m' <= 5) by (unfold az_bitcount; destruct (m' =? M_DIGIT); lia).
+  unfold az_latch_and_append. constructor; cbn [st_mode st_bshift st_bits st_tokens]; auto; try lia.
+  - rewrite zlength_app. destruct (m' =? st_mode s); lia.
+  - exists (pre ++ out), [], (B ++ az_latch_bits (st_mode s) m' ++ code_bits m' v).
+    split; [rewrite app_nil_r; reflexivity|]. split; [reflexivity|].
+    split; [|eapply dec_ok_ext; eauto].
+    unfold az_latch_bits, code_bits. destruct (m' =? st_mode s) eqn:E.
+    + cbn [app]. apply tokens_bits_cons; auto.
+    + rewrite app_assoc. apply tokens_bits_cons; [|reflexivity].
+      apply tokens_bits_cons; auto.
+Qed.
+
+(* shiftAndAppend *)
+Lemma inv_shift pre out s m' v f : InvB 0 pre s -> 1 <= zlength out ->
+  sp_run f (mode_of (st_mode s))
+         (code_bits (st_mode s) (az_shift_val (st_mode s) m') ++ msb_bits 5 v)
+    = Some (out, mode_of (st_mode s)) ->
+  InvB 0 (pre ++ out) (az_shift_and_append s m' v).
+Proof.
+  intros HI Ho Hrun. destruct (inv0_sem _ _ HI) as (B & HB & Hd).
+  destruct HI as [H1 H2 H3 H4 _].
+  assert (Hbc : 4 <= az_bitcount (st_mode s) <= 5)
+    by (unfold az_bitcount; destruct (st_mode s =? M_DIGIT); lia).
+  unfold az_shift_and_append. constructor; cbn [st_mode st_bshift st_bits st_tokens]; auto; try lia.
+  - rewrite zlength_app. lia.
+  - exists (pre ++ out), [], (B ++ code_bits (st_mode s) (az_shift_val (st_mode s) m') ++ msb_bits 5 v).
+    split; [rewrite app_nil_r; reflexivity|]. split; [reflexivity|].
+    split; [|eapply dec_ok_ext; eauto].
+    rewrite app_assoc. apply tokens_bits_cons; [|reflexivity].
+    apply tokens_bits_cons; auto.
+Qed.
+
+(* addBinaryShiftChar *)
+Lemma inv_binary pre ch rest s : text = pre ++ ch :: rest -> InvB 2077 pre s ->
+  InvB 2077 (pre ++ [ch]) (az_add_binary_shift_char s (zlength pre)).
+Proof.
+  intros Ht [H1 H2 H3 H4 (pre1 & pend & B & Hp & Hl & HB & Hd)].
+  unfold az_add_binary_shift_char. unfold M_UPPER, M_PUNCT, M_DIGIT.
+  remember ((st_mode s =? 4) || (st_mode s =? 2)) as to_upper eqn:Eu.
+  remember (az_latch (st_mode s) 0) as latch eqn:El.
+  remember (if (st_bshift s =? 0) || (st_bshift s =? 31) then 18
+            else if st_bshift s =? 62 then 9 else 8) as delta eqn:Ed.
+  assert (Hdelta : 0 <= delta <= 18).
+  { subst delta. destruct ((st_bshift s =? 0) || (st_bshift s =? 31)); [lia|].
+    destruct (st_bshift s =? 62); lia. }
+  clear Ed.
+  cbn [st_bshift].
+  remember {| st_mode := if to_upper then 0 else st_mode s;
+              st_tokens := if to_upper
+                           then TSimple (Z.land latch 65535) (Z.shiftr latch 16 mod 256) :: st_tokens s
+                           else st_tokens s;
+              st_bshift := st_bshift s + 1;
+              st_bits := (if to_upper then st_bits s + Z.shiftr latch 16 else st_bits s) + delta |}
+    as result eqn:Er.
+  pose proof (az_latch_table_iso (st_mode s) 0 H1 ltac:(lia)) as Hle. unfold latch_entry_ok in Hle.
+  repeat (apply andb_true_iff in Hle; let H := fresh "Hle" in destruct Hle as [Hle H]).
+  rewrite <- El in Hle0, Hle1, Hle2.
+  assert (Hres : InvB 2078 (pre ++ [ch]) result).
+  { subst result. constructor; cbn [st_mode st_bshift st_bits st_tokens].
+    - destruct to_upper; lia.
+    - lia.
+    - intros _. destruct (st_mode s =? 4) eqn:E4; cbn [orb] in Eu; subst to_upper; [lia|].
+      destruct (st_mode s =? 2) eqn:E2; lia.
+    - rewrite zlength_app. change (zlength [ch]) with 1. destruct to_upper; lia.
+    - exists pre1, (pend ++ [ch]).
+      destruct to_upper eqn:Eu'.
+      + exists (B ++ az_latch_bits (st_mode s) 0).
+        split; [rewrite Hp, app_assoc; reflexivity|].
+        split; [rewrite zlength_app; change (zlength [ch]) with 1; lia|].
+        assert (Hne : (0 =? st_mode s) = false) by lia.
+        split.
+        * unfold az_latch_bits, az_entry_bits. rewrite Hne, <- El. apply tokens_bits_cons; auto.
+        * rewrite <- (app_nil_r pre1). eapply dec_ok_ext; [exact Hd|].
+          apply run_is_eq. exact Hle3.
+      + exists B. split; [rewrite Hp, app_assoc; reflexivity|].
+        split; [rewrite zlength_app; change (zlength [ch]) with 1; lia|]. auto. }
+  assert (Hbs : st_bshift result = st_bshift s + 1) by (subst result; reflexivity).
+  destruct (st_bshift s + 1 =? 2047 + 31) eqn:E.
+  - assert (Ht' : text = (pre ++ [ch]) ++ rest) by (rewrite <- app_assoc; exact Ht).
+    destruct (inv_flush (pre ++ [ch]) rest result Ht' Hres) as (HI & _ & _).
+    replace (zlength pre + 1) with (zlength (pre ++ [ch]))
+      by (rewrite zlength_app; reflexivity).
+    eapply inv_weaken; [|exact HI]. lia.
+  - destruct Hres as [R1 R2 R3 R4 R5]. constructor; auto. rewrite Hbs in *. lia.
+Qed.
+
+Lemma cm_nonneg m ch : 0 <= m <= 4 -> 0 <= ch < 256 -> 0 <= az_cm m ch.
+Proof.
+  intros Hm Hc. pose proof (az_char_map_iso m ch Hm Hc) as H. unfold cm_entry_ok in H.
+  destruct (az_cm m ch >? 0) eqn:E; lia.
+Qed.
+
+(* updateStateForChar *)
+Lemma inv_update_char pre ch rest s : text = pre ++ ch :: rest -> InvB 2077 pre s ->
+  Forall (InvB 2077 (pre ++ [ch])) (az_update_state_for_char s ch (zlength pre))
+  /\ az_update_state_for_char s ch (zlength pre) <> [].
+Proof.
+  intros Ht HI.
+  assert (Hch : is_byte ch).
+  { rewrite Ht in Htext. apply Forall_app in Htext. destruct Htext as [_ Hc].
+    apply Forall_inv in Hc. exact Hc. }
+  destruct (inv_flush pre (ch :: rest) s Ht (inv_weaken 2077 2078 _ _ ltac:(lia) HI))
+    as (Hsnb & Hmode & _).
+  pose proof (inv_mode _ _ _ HI) as Hm.
+  unfold az_update_state_for_char.
+  set (snb := az_end_binary_shift s (zlength pre)) in *.
+  split.
+  - apply Forall_forall. intros s' Hin. apply in_app_or in Hin. destruct Hin as [Hin|Hin].
+    + apply in_flat_map in Hin. destruct Hin as (mode & Hmode_in & Hin).
+      assert (Hmd : 0 <= mode <= 4).
+      { unfold M_UPPER, M_LOWER, M_DIGIT, M_MIXED, M_PUNCT in Hmode_in. simpl in Hmode_in. lia. }
+      destruct (az_cm mode ch >? 0) eqn:Ecm; [|destruct Hin].
+      apply in_app_or in Hin. destruct Hin as [Hin|Hin].
+      * destruct (negb (az_cm (st_mode s) ch >? 0) || (mode =? st_mode s) || (mode =? M_DIGIT));
+          [|destruct Hin].
+        destruct Hin as [<-|[]].
+        apply (inv_weaken 0); [lia|].
+        apply (inv_latch pre [ch] snb mode (az_cm mode ch) 8 Hsnb Hmd); [reflexivity|].
+        rewrite Hmode. pose proof (ff_latch_all (st_mode s) mode ch Hm Hmd Hch) as Hf.
+        unfold ff_latch in Hf. rewrite Ecm in Hf. apply run_is_eq. exact Hf.
+      * destruct (az_shift (st_mode s) mode) as [sv|] eqn:Esh;
+          [|rewrite andb_false_r in Hin; destruct Hin].
+        destruct (negb (az_cm (st_mode s) ch >? 0)); cbn [andb az_is_some] in Hin; [|destruct Hin].
+        destruct Hin as [<-|[]].
+        apply (inv_weaken 0); [lia|].
+        apply (inv_shift pre [ch] snb mode (az_cm mode ch) 8 Hsnb); [reflexivity|].
+        rewrite Hmode. pose proof (ff_shift_all (st_mode s) mode ch Hm Hmd Hch) as Hf.
+        unfold ff_shift in Hf. unfold az_shift_val. rewrite Esh in Hf |- *. rewrite Ecm in Hf.
+        apply run_is_eq. exact Hf.
+    + destruct ((st_bshift s >? 0) || (az_cm (st_mode s) ch =? 0)); [|destruct Hin].
+      destruct Hin as [<-|[]]. eapply inv_binary; eauto.
+  - destruct (az_cm (st_mode s) ch =? 0) eqn:E0.
+    + rewrite orb_true_r. intros Hnil. apply app_eq_nil in Hnil. destruct Hnil as [_ Hnil]. discriminate.
+    + pose proof (cm_nonneg (st_mode s) ch Hm Hch) as Hnn.
+      assert (Hpos : az_cm (st_mode s) ch >? 0 = true) by lia.
+      intros Hnil. apply app_eq_nil in Hnil. destruct Hnil as [Hnil _].
+      assert (Hin : In (az_latch_and_append snb (st_mode s) (az_cm (st_mode s) ch))
+                       (flat_map
+                          (fun mode : Z =>
+                           if az_cm mode ch >? 0
+                           then
+                            (if negb (az_cm (st_mode s) ch >? 0) || (mode =? st_mode s) || (mode =? M_DIGIT)
+                             then [az_latch_and_append snb mode (az_cm mode ch)]
+                             else []) ++
+                            (if negb (az_cm (st_mode s) ch >? 0) && az_is_some (az_shift (st_mode s) mode)
+                             then [az_shift_and_append snb mode (az_cm mode ch)]
+                             else [])
+                           else []) [M_UPPER; M_LOWER; M_DIGIT; M_MIXED; M_PUNCT])).
+      { apply in_flat_map. exists (st_mode s). split.
+        - unfold M_UPPER, M_LOWER, M_DIGIT, M_MIXED, M_PUNCT. simpl. lia.
+        - rewrite Hpos, Z.eqb_refl. cbn [negb orb app]. left. reflexivity. }
+      rewrite Hnil in Hin. destruct Hin.
+Qed.
+
+Lemma pair_code_bytes c1 c2 : 0 < az_pair_code c1 c2 ->
+  2 <= az_pair_code c1 c2 <= 5 /\ pair_bytes (az_pair_code c1 c2) = [c1; c2].
+Proof.
+  unfold az_pair_code.
+  destruct ((c1 =? 13) && (c2 =? 10)) eqn:E1; [intros _; split; [lia|]; cbn; f_equal; [|f_equal]; lia|].
+  destruct ((c1 =? 46) && (c2 =? 32)) eqn:E2; [intros _; split; [lia|]; cbn; f_equal; [|f_equal]; lia|].
+  destruct ((c1 =? 44) && (c2 =? 32)) eqn:E3; [intros _; split; [lia|]; cbn; f_equal; [|f_equal]; lia|].
+  destruct ((c1 =? 58) && (c2 =? 32)) eqn:E4; [intros _; split; [lia|]; cbn; f_equal; [|f_equal]; lia|].
+  lia.
+Qed.
+
+(* updateStateForPair *)
+Lemma inv_update_pair pre c1 c2 rest s pc :
+  text = pre ++ c1 :: c2 :: rest -> pc = az_pair_code c1 c2 -> 0 < pc -> InvB 2077 pre s ->
+  Forall (InvB 2077 (pre ++ [c1; c2])) (az_update_state_for_pair s (zlength pre) pc)
+  /\ az_update_state_for_pair s (zlength pre) pc <> [].
+Proof.
+  intros Ht Hpc Hpos HI. subst pc.
+  destruct (pair_code_bytes c1 c2 Hpos) as [Hrange Hbytes].
+  set (pc := az_pair_code c1 c2) in *.
+  assert (Hb12 : is_byte c1 /\ is_byte c2).
+  { rewrite Ht in Htext. apply Forall_app in Htext. destruct Htext as [_ Hc].
+    inversion Hc as [|? ? Hc1 Hc']; subst. inversion Hc' as [|? ? Hc2 _]; subst. auto. }
+  destruct (inv_flush pre (c1 :: c2 :: rest) s Ht (inv_weaken 2077 2078 _ _ ltac:(lia) HI))
+    as (Hsnb & Hmode & _).
+  pose proof (inv_mode _ _ _ HI) as Hm.
+  pose proof (ff_pair_all (st_mode s) pc Hm Hrange) as Hfp. unfold ff_pair in Hfp.
+  apply andb_true_iff in Hfp. destruct Hfp as [Hfp1 Hfp2].
+  unfold az_update_state_for_pair.
+  set (snb := az_end_binary_shift s (zlength pre)) in *.
+  split; [|discriminate].
+  apply Forall_forall. intros s' Hin.
+  destruct Hin as [<-|Hin].
+  { apply (inv_weaken 0); [lia|].
+    apply (inv_latch pre [c1; c2] snb 4 pc 8 Hsnb ltac:(lia)); [unfold zlength; simpl; lia|].
+    rewrite Hmode, <- Hbytes. apply run_is_eq. exact Hfp1. }
+  apply in_app_or in Hin. destruct Hin as [Hin|Hin].
+  { unfold M_PUNCT in Hin. destruct (st_mode s =? 4) eqn:E4; cbn [negb] in Hin; [destruct Hin|].
+    destruct Hin as [<-|[]].
+    apply (inv_weaken 0); [lia|].
+    apply (inv_shift pre [c1; c2] snb 4 pc 8 Hsnb); [unfold zlength; simpl; lia|].
+    rewrite Hmode, <- Hbytes. apply run_is_eq. cbn [orb] in Hfp2. exact Hfp2. }
+  apply in_app_or in Hin. destruct Hin as [Hin|Hin].
+  { destruct ((pc =? 3) || (pc =? 4)) eqn:E34; [|destruct Hin].
+    destruct Hin as [<-|[]].
+    destruct ff_digit_codes as (D46 & D44 & D32).
+    assert (Hc2 : c2 = 32).
+    { unfold pair_bytes in Hbytes. destruct (pc =? 2); [lia|].
+      destruct (pc =? 3); [inversion Hbytes; auto|]. destruct (pc =? 4); inversion Hbytes; auto. }
+    assert (Hv1 : 16 - pc = az_cm 2 c1).
+    { unfold pair_bytes in Hbytes. destruct (pc =? 2) eqn:P2; [lia|].
+      destruct (pc =? 3) eqn:P3; [inversion Hbytes; subst c1; rewrite D46; lia|].
+      destruct (pc =? 4) eqn:P4; [inversion Hbytes; subst c1; rewrite D44; lia|]. lia. }
+    apply (inv_weaken 0); [lia|].
+    replace (pre ++ [c1; c2]) with ((pre ++ [c1]) ++ [c2]) by (rewrite <- app_assoc; reflexivity).
+    assert (H1 : InvB 0 (pre ++ [c1]) (az_latch_and_append snb M_DIGIT (16 - pc))).
+    { apply (inv_latch pre [c1] snb 2 (16 - pc) 8 Hsnb ltac:(lia)); [reflexivity|].
+      rewrite Hmode, Hv1.
+      pose proof (ff_latch_all (st_mode s) 2 c1 Hm ltac:(lia) (proj1 Hb12)) as Hf.
+      unfold ff_latch in Hf. assert (Hp : az_cm 2 c1 >? 0 = true) by lia. rewrite Hp in Hf.
+      apply run_is_eq. exact Hf. }
+    apply (inv_latch (pre ++ [c1]) [c2] _ 2 1 8 H1 ltac:(lia)); [reflexivity|].
+    cbn [st_mode az_latch_and_append]. subst c2. rewrite <- D32.
+    pose proof (ff_latch_all 2 2 32 ltac:(lia) ltac:(lia) ltac:(unfold is_byte; lia)) as Hf.
+    unfold ff_latch in Hf. assert (Hp : az_cm 2 32 >? 0 = true) by (rewrite D32; reflexivity).
+    rewrite Hp in Hf. apply run_is_eq. exact Hf. }
+  destruct (st_bshift s >? 0); [|destruct Hin].
+  destruct Hin as [<-|[]].
+  replace (pre ++ [c1; c2]) with ((pre ++ [c1]) ++ [c2]) by (rewrite <- app_assoc; reflexivity).
+  replace (zlength pre + 1) with (zlength (pre ++ [c1])) by (rewrite zlength_app; reflexivity).
+  apply (inv_binary (pre ++ [c1]) c2 rest); [rewrite <- app_assoc; exact Ht|].
+  apply (inv_binary pre c1 (c2 :: rest)); auto.
+Qed.
+
+(* simplifyStates keeps a non-empty sub-list *)
+Lemma simplify_inner_sub (P : state -> Prop) newState : forall olds add,
+  Forall P olds -> Forall P (snd (az_simplify_inner newState olds add)).
+Proof.
+  induction olds as [|old t IH]; intros add HF; cbn [az_simplify_inner]; [constructor|].
+  inversion HF as [|? ? Ho Ht]; subst.
+  set (add1 := if add && az_is_better old newState then false else add).
+  specialize (IH add1 Ht). destruct (az_simplify_inner newState t add1) as [add2 rest].
+  cbn [snd] in *. destruct (negb (add1 && az_is_better newState old)); auto.
+Qed.
+
+Lemma simplify_inner_nonempty newState : forall olds,
+  fst (az_simplify_inner newState olds true) = false ->
+  snd (az_simplify_inner newState olds true) <> [].
+Proof.
+  induction olds as [|old t IH]; cbn [az_simplify_inner]; [cbn; discriminate|].
+  cbn [andb]. destruct (az_is_better old newState) eqn:Eb.
+  - destruct (az_simplify_inner newState t false) as [add2 rest]. cbn [andb negb fst snd].
+    intros _. discriminate.
+  - destruct (az_simplify_inner newState t true) as [add2 rest] eqn:E. cbn [fst snd] in *.
+    intros H2. specialize (IH H2). destruct (negb (true && az_is_better newState old)); [discriminate | exact IH].
+Qed.
+
+Lemma simplify_loop_inv (P : state -> Prop) : forall states result,
+  Forall P states -> Forall P result -> Forall P (az_simplify_loop states result).
+Proof.
+  induction states as [|s t IH]; intros result HS HR; cbn [az_simplify_loop]; auto.
+  inversion HS as [|? ? Hs Ht]; subst.
+  pose proof (simplify_inner_sub P s result true HR) as Hsub.
+  destruct (az_simplify_inner s result true) as [add newResult]. cbn [snd] in Hsub.
+  apply IH; auto. destruct add; auto. apply Forall_app. split; auto.
+Qed.
+
+Lemma simplify_loop_nonempty : forall states result,
+  result <> [] -> az_simplify_loop states result <> [].
+Proof.
+  induction states as [|s t IH]; intros result HR; cbn [az_simplify_loop]; auto.
+  pose proof (simplify_inner_nonempty s result) as Hne.
+  destruct (az_simplify_inner s result true) as [add newResult]. cbn [fst snd] in Hne.
+  apply IH. destruct add.
+  - intros H. apply app_eq_nil in H. destruct H; discriminate.
+  - apply Hne. reflexivity.
+Qed.
+
+Lemma simplify_states_inv (P : state -> Prop) states :
+  Forall P states -> states <> [] ->
+  Forall P (az_simplify_states states) /\ az_simplify_states states <> [].
+Proof.
+  intros HF Hne. unfold az_simplify_states. split; [apply simplify_loop_inv; auto|].
+  destruct states as [|s t]; [congruence|]. cbn [az_simplify_loop az_simplify_inner].
+  apply simplify_loop_nonempty. discriminate.
+Qed.
+
+Lemma flat_map_inv {A} (P Q : A -> Prop) (f : A -> list A) l :
+  (forall x, P x -> Forall Q (f x) /\ f x <> []) -> Forall P l -> l <> [] ->
+  Forall Q (flat_map f l) /\ flat_map f l <> [].
+Proof.
+  intros Hf HF Hne. split.
+  - apply Forall_forall. intros y Hy. apply in_flat_map in Hy. destruct Hy as (x & Hx & Hy).
+    rewrite Forall_forall in HF. destruct (Hf x (HF x Hx)) as [H1 _].
+    rewrite Forall_forall in H1. auto.
+  - destruct l as [|x t]; [congruence|]. cbn [flat_map]. inversion HF; subst.
+    destruct (Hf x H1) as [_ H]. intros Hc. apply app_eq_nil in Hc. tauto.
+Qed.
+
+(* the main loop *)
+Lemma hl_loop_inv : forall n rest pre states, (length rest <= n)%nat ->
+  text = pre ++ rest -> Forall (InvB 2077 pre) states -> states <> [] ->
+  Forall (InvB 2077 text) (az_hl_loop rest (zlength pre) states)
+  /\ az_hl_loop rest (zlength pre) states <> [].
+Proof.
+  induction n as [|n IH]; intros rest pre states Hn Ht HF Hne.
+  - destruct rest; [|simpl in Hn; lia]. rewrite app_nil_r in Ht. subst pre. cbn. auto.
+  - destruct rest as [|cur rest']; [rewrite app_nil_r in Ht; subst pre; cbn; auto|].
+    assert (Hchar : forall rest1, rest' = rest1 ->
+      Forall (InvB 2077 text) (az_hl_loop rest' (zlength pre + 1) (az_update_list_char states cur (zlength pre)))
+      /\ az_hl_loop rest' (zlength pre + 1) (az_update_list_char states cur (zlength pre)) <> []).
+    { intros _. unfold az_update_list_char.
+      destruct (flat_map_inv (InvB 2077 pre) (InvB 2077 (pre ++ [cur]))
+                 (fun s => az_update_state_for_char s cur (zlength pre)) states) as [F1 F2]; auto.
+      { intros s Hs. eapply inv_update_char; eauto. }
+      destruct (simplify_states_inv _ _ F1 F2) as [G1 G2].
+      replace (zlength pre + 1) with (zlength (pre ++ [cur])) by (rewrite zlength_app; reflexivity).
+      apply IH; auto; [simpl in Hn; lia | rewrite <- app_assoc; exact Ht]. }
+    destruct rest' as [|nxt rest2]; [cbn [az_hl_loop]; apply (Hchar []); reflexivity|].
+    cbn [az_hl_loop].
+    destruct (az_pair_code cur nxt >? 0) eqn:Epc; [|apply (Hchar (nxt :: rest2)); reflexivity].
+    unfold az_update_list_pair.
+    destruct (flat_map_inv (InvB 2077 pre) (InvB 2077 (pre ++ [cur; nxt]))
+               (fun s => az_update_state_for_pair s (zlength pre) (az_pair_code cur nxt)) states)
+      as [F1 F2]; auto.
+    { intros s Hs. eapply inv_update_pair; eauto. lia. }
+    destruct (simplify_states_inv _ _ F1 F2) as [G1 G2].
+    replace (zlength pre + 2) with (zlength (pre ++ [cur; nxt])) by (rewrite zlength_app; reflexivity).
+    apply IH; auto; [simpl in Hn; lia | rewrite <- app_assoc; exact Ht].
+Qed.
+
+Lemma min_state_some : forall l minb r0,
+  exists s, az_min_state l minb (Some r0) = Some s /\ (s = r0 \/ In s l).
+Proof.
+  induction l as [|x t IH]; intros minb r0; cbn [az_min_state].
+  - exists r0. auto.
+  - destruct (st_bits x <? minb).
+    + destruct (IH (st_bits x) x) as (s & Hs & [->|Hin]); exists s; split; auto; right; [left|right]; auto.
+    + destruct (IH minb r0) as (s & Hs & [->|Hin]); exists s; split; auto. right; right; auto.
+Qed.
+
+End HL.
+
+(* ================================================================== *)
+(* F. the layer theorem                                                *)
+Theorem az_highlevel_correct : forall data,
+  Forall is_byte data -> zlength data < 2 ^ 57 ->
+  exists bits,
+    az_highlevel data = Ok bits
+    /\ forall k, (k <= 11)%nat -> aztec_decode_hl (bits ++ repeat true k) = Some data.
+Proof.
+  intros data Hb Hlen.
+  destruct (hl_loop_inv data Hb (length data) data [] [az_initial_state] (Nat.le_refl _) eq_refl)
+    as [HF Hne].
+  { constructor; [|constructor]. eapply inv_weaken; [|apply inv_initial]. lia. }
+  { discriminate. }
+  change (zlength (@nil Z)) with 0 in *.
+  unfold az_highlevel.
+  set (states := az_hl_loop data 0 [az_initial_state]) in *.
+  assert (Hmin : exists s, az_min_state states az_max_int None = Some s /\ In s states).
+  { destruct states as [|x t]; [congruence|]. cbn [az_min_state].
+    inversion HF as [|? ? Hx _]; subst.
+    pose proof (inv_bits _ _ _ _ Hx) as Hbits.
+    assert (Hlt : st_bits x <? az_max_int = true).
+    { unfold az_max_int. assert (2 ^ 57 = 144115188075855872) by reflexivity. lia. }
+    rewrite Hlt. destruct (min_state_some t (st_bits x) x) as (s & Hs & Hin).
+    exists s. split; auto. destruct Hin as [->|Hin]; [left | right]; auto. }
+  destruct Hmin as (s & Hmin & Hin). rewrite Hmin.
+  rewrite Forall_forall in HF. pose proof (HF s Hin) as HI.
+  destruct (inv_flush data Hb data [] s ltac:(rewrite app_nil_r; reflexivity)
+              (inv_weaken data 2077 2078 _ _ ltac:(lia) HI)) as (H0 & Hmode & _).
+  destruct (inv0_sem data _ _ H0) as (B & HB & Hd).
+  unfold az_to_bit_list. exists B. split; [exact HB|].
+  intros k Hk. unfold aztec_decode_hl. rewrite (Hd (repeat true k)).
+  pose proof (inv_mode _ _ _ _ H0) as Hm.
+  destruct (ff_trailing _ k Hm Hk) as (mf & Hmf). rewrite Hmf. cbn [lift]. rewrite app_nil_r. reflexivity.
+Qed.
